@@ -127,6 +127,35 @@ def atoms_to_lean(e, table):
     raise ValueError('guard of a seed-loading site uses a condition the model does not know: %r' % src)
 
 
+def full_row_flags(tree):
+    """how an object is classified when it is built from a full row:
+      fetchObjectsUsesParsedClass : in EntityMeta._fetch_objects the class returned by `entity._parse_row_(...)` is the receiver of `_get_from_identity_map_`
+      parseRowUsesCode2cls        : in EntityMeta._parse_row_ that class is `discr_attr.code2cls[discr_value]` when there is a discriminator, `entity` otherwise"""
+    f = find_method(tree, 'EntityMeta', '_fetch_objects')
+    parsed_name = None
+    for n in ast.walk(f):
+        if isinstance(n, ast.Assign) and isinstance(n.value, ast.Call) and isinstance(n.value.func, ast.Attribute) and n.value.func.attr == '_parse_row_' \
+                and isinstance(n.targets[0], ast.Tuple) and isinstance(n.targets[0].elts[0], ast.Name):
+            if parsed_name is not None: raise ValueError('_fetch_objects: more than one call of _parse_row_')
+            parsed_name = n.targets[0].elts[0].id
+    if parsed_name is None: raise ValueError('_fetch_objects: `cls, pkval, avdict = entity._parse_row_(...)` not found')
+    receivers = [ast.unparse(n.func.value) for n in ast.walk(f) if isinstance(n, ast.Call) and isinstance(n.func, ast.Attribute) and n.func.attr == '_get_from_identity_map_']
+    if len(receivers) != 1: raise ValueError('_fetch_objects: one call of _get_from_identity_map_ expected, found %d' % len(receivers))
+    uses_parsed = receivers[0] == parsed_name
+    g = find_method(tree, 'EntityMeta', '_parse_row_')
+    top = [st for st in g.body if isinstance(st, ast.If) and ast.unparse(st.test) == 'not discr_attr']
+    if len(top) != 1: raise ValueError('_parse_row_: `if not discr_attr:` not found')
+    def assigned(stmts, name):
+        vals = [ast.unparse(st.value) for st in stmts if isinstance(st, ast.Assign) and any(isinstance(t, ast.Name) and t.id == name for t in st.targets)]
+        return vals
+    then_v = assigned(top[0].body, 'real_entity_subclass'); else_v = assigned(top[0].orelse, 'real_entity_subclass')
+    if then_v != ['entity'] or len(else_v) != 1: raise ValueError('_parse_row_: real_entity_subclass is assigned in another way: %r / %r' % (then_v, else_v))
+    rets = [ast.unparse(st.value) for st in g.body if isinstance(st, ast.Return)]
+    if len(rets) != 1 or not rets[0].startswith('(real_entity_subclass,'): raise ValueError('_parse_row_ does not return (real_entity_subclass, ...)')
+    return {'fetchObjectsUsesParsedClass': uses_parsed, 'parseRowUsesCode2cls': else_v[0] == 'discr_attr.code2cls[discr_value]',
+            'info': {'_fetch_objects receiver': receivers[0], '_parse_row_ class with discriminator': else_v[0]}}
+
+
 def regenerate_load_guards(repo, lean_dir):
     out_path = os.path.join(lean_dir, 'PonyVerif', 'Gen', 'LoadGuards.lean')
     info = {}
@@ -142,6 +171,12 @@ def regenerate_load_guards(repo, lean_dir):
             parts = [('(!%s)' % atoms_to_lean(t, table)) if neg else atoms_to_lean(t, table) for t, neg in chain]
             lines.append('/-- %s.%s: `%s` -/' % (cls, meth, ' ; '.join(info[name]).replace('-/', '- /')))
             lines.append('def %s (c : LoadCtx) : Bool := %s' % (name, ' && '.join(parts) if parts else 'true'))
+        fr = full_row_flags(tree)
+        info['full_row'] = fr['info']
+        lines.append('/-- EntityMeta._fetch_objects: `%s._get_from_identity_map_(...)` -/' % fr['info']['_fetch_objects receiver'])
+        lines.append('def fetchObjectsUsesParsedClass : Bool := %s' % ('true' if fr['fetchObjectsUsesParsedClass'] else 'false'))
+        lines.append('/-- EntityMeta._parse_row_: `real_entity_subclass = %s` (with a discriminator), `entity` (without) -/' % fr['info']['_parse_row_ class with discriminator'])
+        lines.append('def parseRowUsesCode2cls : Bool := %s' % ('true' if fr['parseRowUsesCode2cls'] else 'false'))
         lines += ['end PonyVerif.Gen.LoadGuards', '']
         text = '\n'.join(lines); ok, err = True, None
     except Exception as e:
